@@ -213,9 +213,27 @@ def c06_edges(tier, seed):
         est5 = lib5.Estimate({'A': 1}, 'thermochem')
         lib5['A']['thermochem'].update(ThermochemGroup(None, None, {1500.: 5.5}, 298.15, (298., 1500.)))
         n += 1
-        if est5.get_range() != lib5['A']['thermochem'].get_range():
-            viol.append({'id': 'estimate-range-after-group-update', 'cls': 'K5:estimate-range-snapshot', 'input': 'Estimate({A: 1}); then lib[A].update(wider range)',
-                         'observed': {'estimate': est5.get_range(), 'its only group': lib5['A']['thermochem'].get_range()}, 'expected': 'equal'})
+        # (former K5, repaired by a9ee649) the estimate keeps the range computed when it was made (a narrower report is safe); what it must not do is answer
+        # a temperature outside the range it reports just because the shared group object now accepts it
+        import warnings as _w
+        with _w.catch_warnings(record=True) as w5:
+            _w.simplefilter('always')
+            k5 = real.outcome(est5.get_HoRT, 1200.)
+        r5 = est5.get_range()
+        if k5[0] == 'ok' and not w5 and r5 is not None and not (r5[0] <= 1200. <= r5[1]):
+            viol.append({'id': 'estimate-range-after-group-update', 'input': 'est = Estimate({A: 1}); lib[A].update(wider range 298-1500); est.get_HoRT(1200)',
+                         'observed': {'range the estimate reports': r5, 'get_HoRT(1200)': k5}, 'expected': 'an error or a warning: 1200 K is outside the reported range',
+                         'script': None})
+        # the same through set_range on the estimate itself
+        est5b = lib5.Estimate({'A': 1}, 'thermochem')
+        est5b.set_range((298., 500.))
+        for m5 in ('get_CpoR', 'get_HoRT', 'get_SoR'):
+            n += 1
+            with _w.catch_warnings(record=True) as w5:
+                _w.simplefilter('always')
+                k5 = real.outcome(getattr(est5b, m5), 900.)
+            if k5[0] == 'ok' and not w5:
+                viol.append({'id': 'estimate-own-range-%s' % m5, 'input': 'est.set_range((298, 500)); est.%s(900)' % m5, 'observed': k5, 'expected': 'an error or a warning'})
         lib6 = GroupLibrary(None, {'A': {'thermochem': ThermochemGroup(-10., 25., dict(tabB), 298.15, (298., 1500.))},
                                    'B': {'thermochem': ThermochemGroup(-1., 2., dict(tab), 300.)}})
         lib6.name = 'C'
